@@ -66,7 +66,19 @@ func (ftp *Fs) ListDir(path string) []os.FileInfo {
 	return list
 }
 
+// isRoot tells whether path names the root of the filesystem itself. The root
+// is an entry of the directory above it: not the client's to remove or rename.
+func (ftp *Fs) isRoot(path string) bool {
+	return ftp.RealPath(path) == ftp.RealPath("/")
+}
+
+var errIsRoot = errors.New("FtpFs: not allowed on the root directory")
+
 func (ftp *Fs) DeleteDir(path string) error {
+	if ftp.isRoot(path) {
+		return errIsRoot
+	}
+
 	p := ftp.RealPath(path)
 
 	info, err := os.Lstat(p)
@@ -82,11 +94,19 @@ func (ftp *Fs) DeleteDir(path string) error {
 }
 
 func (ftp *Fs) DeleteFile(path string) error {
+	if ftp.isRoot(path) {
+		return errIsRoot
+	}
+
 	p := ftp.RealPath(path)
 	return os.Remove(p)
 }
 
 func (ftp *Fs) Rename(from, to string) error {
+	if ftp.isRoot(from) || ftp.isRoot(to) {
+		return errIsRoot
+	}
+
 	frompath := ftp.RealPath(from)
 	topath := ftp.RealPath(to)
 
